@@ -180,7 +180,9 @@ fn g_case(src: &mut Src, obs: &mut Obs) -> CaseResult {
             let t = types::ALL[src.below(types::ALL.len())];
             let mut ti = TInfo::default();
             let mut model = rs::expected(&types::gen(t, src, &mut ti));
-            let fault = src.below(4);
+            // the LargeBlobs fragment capacity is documented to depend on `large-blobs`: a fault could
+            // put a non-empty fragment there, so that type is only decoded intact
+            let fault = if t == T::LbResponse { 0 } else { src.below(4) };
             let paths = crate::mutate::walk(&model);
             if fault >= 2 && paths.len() > 1 {
                 let p = paths[1 + src.below(paths.len() - 1)].clone();
